@@ -1849,3 +1849,182 @@ Proof.
 Qed.
 
 End KInv.
+
+(* ================================================================== *)
+(* Part 7.  C03 for pure programs, all clauses                          *)
+(* ================================================================== *)
+Section Main.
+Variable H : hier.
+Hypothesis W : wf_hier H.
+
+Theorem sub_sound fuel sc prog vals s : progS H 0 prog ->
+  run_cmds H fuel prog 0 [] (empty_store sc) = (None, vals, s) ->
+  (* (i)+(ii) every application step is well typed under every grounding *)
+  (forall th, sat H th s -> forall f x r, In (f, x, r) (steps_of prog 0) ->
+     StepSem H th (val vals f) (val vals x) (val vals r)) /\
+  (* (iii) every resolved constraint holds *)
+  (forall c, c < length (constrs s) ->
+     exists a, k_alts (constr_of s c) = [O a []] /\
+       forall o args, follow s (k_ref (constr_of s c)) = O o args ->
+         Sub H (TOp o []) (TOp a []) /\ (k_strict (constr_of s c) = true -> o <> a) /\
+         (args = [] \/ a = Top)) /\
+  (* (iv) a variable that carries a bound is never resolved to a compound type *)
+  (forall v t o args, c_bound (cell_of s v) = Some t ->
+     (c_lower (cell_of s v) <> None \/ c_upper (cell_of s v) <> None) ->
+     follow s t = O o args -> args = []).
+Proof.
+  intros P R. split; [exact (sub_sound12 H W fuel sc prog vals s P R)|split].
+  - intros c Lc.
+    destruct (sub_constraints_hold H W fuel sc prog vals s P R c Lc) as (_ & _ & a & Ea & _ & Hr & _).
+    exists a. split; [exact Ea|exact Hr].
+  - exact (sub_bounded H W fuel sc prog vals s P R).
+Qed.
+End Main.
+
+(* ================================================================== *)
+(* Part 8.  The per-operation soundness statements of Infer/Sound.v on  *)
+(* stores WITH (pure) constraints: check_constraints / fulfill now run, *)
+(* but only re-check.  Forward invariant: [Jv] (the cell part of        *)
+(* Sound.J) + [allpure]; obtained from Sound.specs_all through the      *)
+(* erasure simulation of Part 1.                                        *)
+(* ================================================================== *)
+Section PerOp.
+Variable H : hier.
+Hypothesis W : wf_hier H.
+Local Notation len s := (length (vars s)).
+
+Definition Jv (s : store) : Prop :=
+  (forall v t, c_bound (cell_of s v) = Some t -> tg H (len s) t) /\ (forall v, bok H (cell_of s v)).
+
+(* the same cells, no constraints *)
+Definition strip (s : store) : store := mkStore (vars s) (map (fun _ => []) (csets s)) [] (sched s).
+
+Lemma Rv_strip s : allpure H s -> Rv H s (strip s).
+Proof.
+  intros P. split; [reflexivity|split; [|split; [exact P|apply map_length]]].
+  intros i. unfold cset_of, strip. cbn [csets]. revert i.
+  induction (csets s) as [|x l IH]; intros [|i]; cbn; auto.
+Qed.
+
+Lemma J_of_Jv s s0 : Jv s -> vars s0 = vars s -> nocs s0 -> J H s0.
+Proof.
+  intros (A & B) E N. constructor; [exact N| |].
+  - intros v t. rewrite E, (cell_of_vars s0 s v E). apply A.
+  - intros v. rewrite (cell_of_vars s0 s v E). apply B.
+Qed.
+
+Lemma Jv_of_J s s0 : J H s0 -> vars s0 = vars s -> Jv s.
+Proof.
+  intros J0 E. split.
+  - intros v t. rewrite <- E, <- (cell_of_vars s0 s v E). apply (J_sc H s0 J0).
+  - intros v. rewrite <- (cell_of_vars s0 s v E). apply (J_b H s0 J0).
+Qed.
+
+Lemma le_vars s s' s0 s0' : vars s0 = vars s -> vars s0' = vars s' -> le H s0 s0' -> le H s s'.
+Proof.
+  intros E E' [L M]. split; [rewrite <- E, <- E'; exact L|].
+  intros th S. apply (sat_vars H th s s0 E). apply M. apply (sat_vars H th s' s0' E'). exact S.
+Qed.
+
+Lemma fr_vars s s' s0 s0' : vars s0 = vars s -> vars s0' = vars s' -> fr H s0 s0' -> fr H s s'.
+Proof.
+  intros E E' [Kp0 F N]. constructor.
+  - intros x. rewrite <- (cell_of_vars s0 s x E), <- (cell_of_vars s0' s' x E'). apply Kp0.
+  - intros x. rewrite <- (cell_of_vars s0 s x E), <- (cell_of_vars s0' s' x E'). apply F.
+  - intros x. rewrite <- (cell_of_vars s0 s x E), <- (cell_of_vars s0' s' x E').
+    intros A B C th S. apply (N x A B C th). apply (sat_vars H th s' s0' E'). exact S.
+Qed.
+
+(* the common shape of the postconditions *)
+Definition goodv (s : store) (R : (nat -> ty) -> Prop) (s' : store) : Prop :=
+  Jv s' /\ allpure H s' /\ le H s s' /\ fr H s s' /\ forall th, sat H th s' -> R th.
+
+Lemma goodv_of s s' s0 s0' R : vars s0 = vars s -> Rv H s' s0' -> good H s0 R s0' -> goodv s R s'.
+Proof.
+  intros E (E' & _ & P' & _) (J0 & L & F & HR).
+  split; [eapply Jv_of_J; eauto|split; [exact P'|split; [eapply le_vars; eauto|split; [eapply fr_vars; eauto|]]]].
+  intros th S. apply HR. apply (sat_vars H th s' s0' E'). exact S.
+Qed.
+
+Theorem unify_sound_sub fuel a b s s' : Jv s -> allpure H s -> tg H (len s) a -> tg H (len s) b ->
+  unify H fuel true false false a b s = MOk tt s' ->
+  goodv s (fun th => Sub H (den th a) (den th b)) s'.
+Proof.
+  intros Jvs P Ta Tb E.
+  destruct (sim_unify H fuel true false false a b s (strip s) (Rv_strip s P) tt s' E) as (s0' & E0 & R').
+  assert (J0 : J H (strip s)) by (apply (J_of_Jv s (strip s) Jvs eq_refl); apply (Rv_strip s P)).
+  eapply (goodv_of s s' (strip s) s0'); [reflexivity|exact R'|].
+  exact (unify_sound H W fuel a b (strip s) J0 Ta Tb tt s0' E0).
+Qed.
+
+Theorem bind_sound_sub fuel v t s s' : Jv s -> allpure H s -> v < len s -> tg H (len s) t ->
+  (forall o args, t = O o args -> basic H o = true -> cmpb H (cell_of s v) o) ->
+  bind H fuel v t s = MOk tt s' -> goodv s (fun th => th v = den th t) s'.
+Proof.
+  intros Jvs P Lv Tt C E.
+  destruct (sim_bind_var H fuel v t s (strip s) (Rv_strip s P) tt s' E) as (s0' & E0 & R').
+  assert (J0 : J H (strip s)) by (apply (J_of_Jv s (strip s) Jvs eq_refl); apply (Rv_strip s P)).
+  eapply (goodv_of s s' (strip s) s0'); [reflexivity|exact R'|].
+  exact (bind_sound H W fuel v t (strip s) J0 Lv Tt C tt s0' E0).
+Qed.
+
+Theorem above_sound_sub fuel v new s s' : Jv s -> allpure H s -> v < len s ->
+  variance H new = [] -> new <> Bottom ->
+  above H fuel v new s = MOk tt s' -> goodv s (fun th => lbo H new (th v)) s'.
+Proof.
+  intros Jvs P Lv Vn Nb E.
+  destruct (proj1 (proj2 (proj2 (sims_all H fuel))) v new s (strip s) (Rv_strip s P) tt s' E) as (s0' & E0 & R').
+  assert (J0 : J H (strip s)) by (apply (J_of_Jv s (strip s) Jvs eq_refl); apply (Rv_strip s P)).
+  eapply (goodv_of s s' (strip s) s0'); [reflexivity|exact R'|].
+  exact (above_sound H W fuel v new (strip s) J0 Lv Vn Nb tt s0' E0).
+Qed.
+
+Theorem below_sound_sub fuel v new s s' : Jv s -> allpure H s -> v < len s ->
+  variance H new = [] -> new <> Top ->
+  below H fuel v new s = MOk tt s' -> goodv s (fun th => ubo H new (th v)) s'.
+Proof.
+  intros Jvs P Lv Vn Nb E.
+  destruct (proj1 (proj2 (proj2 (proj2 (sims_all H fuel)))) v new s (strip s) (Rv_strip s P) tt s' E) as (s0' & E0 & R').
+  assert (J0 : J H (strip s)) by (apply (J_of_Jv s (strip s) Jvs eq_refl); apply (Rv_strip s P)).
+  eapply (goodv_of s s' (strip s) s0'); [reflexivity|exact R'|].
+  exact (below_sound H W fuel v new (strip s) J0 Lv Vn Nb tt s0' E0).
+Qed.
+
+Theorem fix_sound_sub fuel pl t s r s' : Jv s -> allpure H s -> tg H (len s) t ->
+  fix_ty H fuel pl t s = MOk r s' ->
+  tg H (len s') r /\ goodv s (fun th => den th r = den th t) s'.
+Proof.
+  intros Jvs P Tt E.
+  destruct (sim_fix_ty H fuel pl t s (strip s) (Rv_strip s P) r s' E) as (s0' & E0 & R').
+  assert (J0 : J H (strip s)) by (apply (J_of_Jv s (strip s) Jvs eq_refl); apply (Rv_strip s P)).
+  destruct (fix_sound H W fuel pl t (strip s) J0 Tt r s0' E0) as (Tr & G).
+  split; [rewrite <- (proj1 R'); exact Tr|].
+  eapply (goodv_of s s' (strip s) s0'); [reflexivity|exact R'|exact G].
+Qed.
+
+Theorem apply_sound_sub fuel f x fixb s r s' : Jv s -> allpure H s -> tg H (len s) f -> tg H (len s) x ->
+  apply H fuel f x fixb s = MOk r s' ->
+  tg H (len s') r /\ goodv s (fun th => StepSem H th f x r) s'.
+Proof.
+  intros Jvs P Tf Tx E.
+  destruct (sim_apply H fuel f x fixb s (strip s) (Rv_strip s P) r s' E) as (s0' & E0 & R').
+  assert (J0 : J H (strip s)) by (apply (J_of_Jv s (strip s) Jvs eq_refl); apply (Rv_strip s P)).
+  destruct (apply_good H W fuel f x fixb (strip s) J0 Tf Tx r s0' E0) as (Tr & G).
+  split; [rewrite <- (proj1 R'); exact Tr|].
+  eapply (goodv_of s s' (strip s) s0'); [reflexivity|exact R'|exact G].
+Qed.
+
+End PerOp.
+
+(* every reachable store satisfies the hypotheses of the per-operation statements *)
+Theorem sub_final (H : hier) (W : wf_hier H) fuel sc prog vals s : progS H 0 prog ->
+  run_cmds H fuel prog 0 [] (empty_store sc) = (None, vals, s) ->
+  invb true s /\ K H s /\ Jv H s /\ allpure H s /\ Forall (tg H (length (vars s))) vals.
+Proof.
+  intros P R.
+  destruct (run_cmdsK H W fuel prog 0 [] (empty_store sc) vals s (inv_empty true sc) (K_empty H sc)
+              (Forall_nil _) P R) as (I & Kk).
+  destruct (sub_final_cells H W fuel sc prog vals s P R) as (A & B & C).
+  split; [exact I|split; [exact Kk|split; [split; [exact A|exact B]|split; [|exact C]]]].
+  eapply Kp_allpure. exact Kk.
+Qed.
